@@ -685,6 +685,7 @@ func TestFixedHostile(t *testing.T) {
 		"for ;; exit() { }\nadd_key(after, 1)", "for i = 0; i < 10; exit() { }", "for ; true; { }", "for ;; { }", "for x = 0; ; x += 1 { }", "for ;; { if false { } }", "for ;; { if true { } else { x = 1 } }",
 		"for i = 0; i < 3; i = i + 1 { }\nfor ;; exit() { if false { x = 1 } }", "if true { for ;; exit() { } }\nadd_key(after, 1)",
 		"xml(message, \"true()\", out)\nxml(message, \"concat('a','b')\", out)", 
+		"a = [1, 2, 3]\na[-1] += 4\na[-3] *= 2\na[-2] %= 5\nm = {\"k\": [1, 2]}\nm[\"k\"][-2] -= 1\nm[\"k\"][-1] /= 1\nprobe(\"a\", a, m)", "l = [[1, 2], [3]]\nl[-1][-1] += 1\nl[-2][-2] *= 3\nl[0][-1] -= l[-1][0]",
 		"a = 1\na += \"s\"", "a = nil\na -= 1", "u %= 0 - 0", "l = [0]\nl[0] /= l[0]", "set_measurement(message, true)\nset_measurement(a.b, true)\nset_measurement(1 + 1)",
 	}
 	points := []map[string]any{{}, {"message": "NaN", "a": math.NaN(), "f1": math.Inf(-1), "k1": "-Infinity"}, {"message": "str", "a": int64(5), "f1": 2.5}, {"message": "hello 42", "f1": int64(1600000000)}, {"message": int64(5), "f1": "2021-05-27 06:54:14.760 UTC", "a": nil}, {"message": "\xff<a><b id=\"1\"/></a>", "k1": 1.5}}
